@@ -200,9 +200,9 @@ TRewind == /\ IsEvent("rewind")
                   /\ ends' = IF ok THEN LoggedEnds(Rec[l].post.shards) ELSE ends
                   /\ ok => \A P \in PoolSet : ends'[P] \subseteq ends[P]
                   \* statistics: was anything truncated; do scanned blocks above the target stay in the wallet (they are queued again)
-                  /\ (ok /\ ~apart) => PrintT(<< "WQSTAT", "rewind", l, IF cands = { WQ!NoH } THEN "no-truncation" ELSE "truncated",
-                                                IF \E x \in left : x > target THEN "rescans-kept-blocks" ELSE "-",
-                                                IF left # scanned THEN "blocks-removed" ELSE "-" >>)
+                  /\ (ok /\ ~apart) => PrintT(<< "WQSTAT", "rewind", l, IF cands = { WQ!NoH } THEN "none" ELSE "trunc",
+                                                IF \E x \in left : x > target THEN "kept" ELSE "-",
+                                                IF left # scanned THEN "removed" ELSE "-" >>)   \* (kept short: TLC wraps long tuples over several lines)
            /\ UNCHANGED << top, notesAt, bday, act >>
            /\ PostOK(Rec[l])
 
